@@ -94,7 +94,7 @@ def isG7 : PC → Bool
   | .g7 _ => true
   | _ => false
 def isC11 : PC → Bool
-  | .c11 => true
+  | .c11 _ => true
   | _ => false
 
 theorem countP_split (l : List PC) :
